@@ -30,8 +30,9 @@ def main():
     tn = tensor_names
     objs = {}
 
-    def gs(v="mp"):
-        return objs.setdefault(("gs", v), GroundState(Operators(v)))
+    def gs(v="mp", singles=False):
+        return objs.setdefault(("gs", v, singles), GroundState(
+            Operators(v), first_order_singles=singles))
 
     def isr(v="pp"):
         return objs.setdefault(("isr", v), IntermediateStates(gs(), v))
@@ -47,6 +48,11 @@ def main():
     REQ = {
         "energy2": (lambda: gs().energy(2), ""),
         "re_energy2": (lambda: gs("re").energy(2), ""),
+        "re_energy2_s": (lambda: gs("re", True).energy(2), ""),
+        "energy2_s": (lambda: gs("mp", True).energy(2), ""),
+        "re_resid_1_s": (lambda: gs("re", True).amplitude_residual(
+            1, "ph", "ia"), "ia"),
+        "psi_1_s": (lambda: gs("mp", True).psi(1, "ket"), None),
         "mp_amp_2_ph": (lambda: gs().mp_amplitude(2, "ph", "ia"), "ia"),
         "mp_amp_1_pphh": (lambda: gs().mp_amplitude(1, "pphh", "ijab"),
                           "ijab"),
@@ -173,6 +179,37 @@ def main():
             except Exception as exc:   # zero denominators etc.
                 fps.append(f"error:{type(exc).__name__}")
         out["fp"] = fps
+        if job.get("default_text") and names_back:
+            # the library's own mapping default -> configured names: the
+            # default-name result imported with convert_default_names=True
+            # has to be the configured-name result
+            from adcgen import import_from_sympy_latex
+            try:
+                imp = import_from_sympy_latex(job["default_text"],
+                                              convert_default_names=True)
+                imp = Expr(imp.sympy, real=ex.real,
+                           target_idx=list(get_symbols(tgt)))
+                i_sympy = rebuild_names(imp.sympy, names_back)
+                fps3 = []
+                for seed, (no, nv) in ((77, (2, 2)), (78, (3, 2))):
+                    m = Model(seed, no, nv)
+                    for n in (1, 2, 3):
+                        m.alias[f"t{n}cc"] = f"t{n}"
+                    try:
+                        val = evaluate(m, i_sympy, tg)
+                        fps3.append(
+                            hashlib.sha1(val.tobytes()).hexdigest()[:12])
+                    except Exception as exc:
+                        fps3.append(f"error:{type(exc).__name__}")
+                out["convert_fp"] = fps3
+                from adcgen.sympy_objects import SymbolicTensor as _ST
+                out["convert_kinds"] = sorted(
+                    {f"{t.name}:{type(t).__name__}"
+                     for t in S(imp.sympy).atoms(_ST)} ^
+                    {f"{t.name}:{type(t).__name__}"
+                     for t in S(ex.sympy).atoms(_ST)})
+            except Exception as exc:
+                out["convert_error"] = f"{type(exc).__name__}: {exc}"
         if job.get("roundtrip"):
             # C18 under a tensor-name configuration: print -> import ->
             # same kinds, same text, same value
